@@ -245,6 +245,78 @@ Theorem C12_eip155_sender_chain :
 Proof. exact eip155_sender_chain. Qed.
 Print Assumptions C12_eip155_sender_chain.
 
+(* 5b. The cache on a transaction OBJECT under any number of callers.  Sequentially: any list of Sender
+       calls with any signers on one object answers, call by call, what the signer passed computes from
+       the fields.  Concurrently (atomic.Value: Load and Store are separate atomic events that interleave
+       freely): a hit is sound for a valid cache, and any sequence of Stores of pairs callers computed
+       keeps it valid - so every answer, hit or computed, is the signer's own under every interleaving. *)
+Theorem C12_sender_seq_sound :
+  forall H ecrecover (sgs : list signer) (t : tx) (c : cache),
+    cache_valid H ecrecover t c ->
+    fst (sender_seq H ecrecover t c sgs) = map (fun sg => sender_signer H ecrecover sg t) sgs /\
+    cache_valid H ecrecover t (snd (sender_seq H ecrecover t c sgs)).
+Proof. exact sender_seq_sound. Qed.
+Print Assumptions C12_sender_seq_sound.
+
+Theorem C12_cache_hit_sound :
+  forall H ecrecover (t : tx) (c : cache) (sg : signer) (a : bytes),
+    cache_valid H ecrecover t c -> cache_load c sg = Some a -> sender_signer H ecrecover sg t = Ok a.
+Proof. exact cache_hit_sound. Qed.
+Print Assumptions C12_cache_hit_sound.
+
+Theorem C12_interleaved_stores_valid :
+  forall H ecrecover (t : tx) (stores : list (signer * bytes)) (c : cache),
+    cache_valid H ecrecover t c ->
+    Forall (fun p => sender_signer H ecrecover (fst p) t = Ok (snd p)) stores ->
+    cache_valid H ecrecover t (fold_left cache_store stores c).
+Proof. exact interleaved_stores_valid. Qed.
+Print Assumptions C12_interleaved_stores_valid.
+
+(* WithSignature copies the fields, never the cache: the copy answers from its own signature. *)
+Theorem C12_with_signature_fresh_cache :
+  forall H ecrecover (sg : signer) (o : tx * cache) (sig : bytes) (t' : tx) (c' : cache) (sgs : list signer),
+    with_signature_obj sg o sig = Ok (t', c') ->
+    c' = None /\ fst (sender_seq H ecrecover t' c' sgs) = map (fun s => sender_signer H ecrecover s t') sgs.
+Proof. exact with_signature_fresh_cache. Qed.
+Print Assumptions C12_with_signature_fresh_cache.
+
+(* 6e. The two entrances.  RLP decoding checks nothing about V, R, S; UnmarshalJSON range-checks them
+       (not low-S).  Whatever entrance a transaction came through, an attributed sender is the address
+       recovered from an in-range signature over exactly the hash of the chain domain that applies (low-S
+       where Homestead rules apply). *)
+Theorem C12_entrance_sender_sound :
+  forall H ecrecover (e : entrance) (t : tx) (sg : signer) (a : bytes),
+    enter e = Some t -> sender_signer H ecrecover sg t = Ok a ->
+    exists v, v < 2 /\ t_v t = v_of (eff_signer sg t) v /\
+      1 <= t_r t < secp_n /\ 1 <= t_s t < secp_n /\
+      (enforces_low_s (eff_signer sg t) = true -> t_s t <= secp_half_n) /\
+      recover_addr H ecrecover (sighash H (eff_signer sg t) t) (t_r t) (t_s t) v = Ok a.
+Proof. exact entrance_sender_sound. Qed.
+Print Assumptions C12_entrance_sender_sound.
+
+Theorem C12_json_entrance_admits :
+  forall (j : tx_json) (t : tx),
+    enter (EntJSON j) = Some t -> validate_sig (json_v_byte (t_v t)) (t_r t) (t_s t) false = true.
+Proof. exact json_entrance_admits. Qed.
+Print Assumptions C12_json_entrance_admits.
+
+Theorem C12_rlp_entrance_admits_everything :
+  forall t : tx, tx_rlp_wf t -> enter (EntRLP (encode_tx t)) = Some t.
+Proof. exact rlp_entrance_admits_everything. Qed.
+Print Assumptions C12_rlp_entrance_admits_everything.
+
+(* non-vacuity: the recorded high-S transaction enters through both entrances; queried under EIP155(3),
+   Homestead, EIP155(3) on one object it answers the sender, an error, the sender; a transaction with
+   R = 0 enters through RLP only *)
+Example C12_objects_example :
+  let e := table_ecrecover w_table in
+  enter (EntRLP (encode_tx w_tx)) = Some w_tx /\
+  enter (EntJSON (json_of_tx w_tx (tx_hash keccak256 w_tx))) = Some w_tx /\
+  fst (sender_seq keccak256 e w_tx None [EIP155 3; Homestead; EIP155 3]) = [Ok w_sender; Err ESig; Ok w_sender] /\
+  (let z := mkTx 1 1 21000 None 0 [] 27 0 1 in
+   enter (EntRLP (encode_tx z)) = Some z /\ enter (EntJSON (json_of_tx z (tx_hash keccak256 z))) = None).
+Proof. vm_compute. repeat split. Qed.
+
 (* 7. Which signer the node applies.  On every probed height of every built-in
       configuration (table regenerated from the source by the translator on each
       run) the model's make_signer is the signer types.MakeSigner returns. *)
